@@ -43,6 +43,7 @@ type c02flags struct {
 	dyn, res, pres, same bool
 	minfree, block, iw   int
 	aff                  bool // cookie affinity (session-cookie-name set); the dynamic update only looks at Preserve
+	strat                string // how the cookie values were chosen: "name" (server-name) | "uid" (pod-uid) | "" (generator's own mix)
 }
 
 func b2s(b bool) string {
@@ -56,6 +57,9 @@ func (f c02flags) String() string {
 	s := fmt.Sprintf("dyn=%s,res=%s,pres=%s,same=%s,minfree=%d,block=%d,iw=%d", b2s(f.dyn), b2s(f.res), b2s(f.pres), b2s(f.same), f.minfree, f.block, f.iw)
 	if f.aff {
 		s += ",aff=1"
+	}
+	if f.strat != "" {
+		s += ",strat=" + f.strat
 	}
 	return s
 }
@@ -77,6 +81,8 @@ func c02parseFlags(s string) c02flags {
 			f.pres = n == 1
 		case "aff":
 			f.aff = n == 1
+		case "strat":
+			f.strat = p[1]
 		case "same":
 			f.same = n == 1
 		case "minfree":
@@ -156,10 +162,79 @@ var c02resp = map[byte]string{
 	'u': "ip changed from '10.0.0.1'",
 }
 
-// scripted admin socket
+// one server of the HAProxy simulated behind the scripted socket
+type c02srv struct {
+	name, ip string
+	port     int
+	state    string // ready | drain | maint
+	weight   int
+	cookie   string // as loaded from the server line; no runtime command changes it
+}
+
+// c02load: what HAProxy holds after loading the server lines of a backend: haproxy.tmpl prints
+// `server <name> <ip>:<port> [disabled] weight <w> [cookie <CookieValue>]`, the cookie iff CookieAffinity() and
+// CookieValue != ""
+func c02load(b *hatypes.Backend) []*c02srv {
+	var t []*c02srv
+	for _, ep := range b.Endpoints {
+		srv := &c02srv{name: ep.Name, ip: ep.IP, port: ep.Port, state: "ready", weight: ep.Weight}
+		if !ep.Enabled {
+			srv.state = "maint"
+		} else if ep.Weight == 0 {
+			srv.state = "drain"
+		}
+		if b.CookieAffinity() && ep.CookieValue != "" {
+			srv.cookie = ep.CookieValue
+		}
+		t = append(t, srv)
+	}
+	return t
+}
+
+func c02fmtTable(t []*c02srv) string {
+	if len(t) == 0 {
+		return "-"
+	}
+	s := make([]string, len(t))
+	for i, x := range t {
+		s[i] = strings.Join([]string{q(x.name), q(x.ip), strconv.Itoa(x.port), x.state, strconv.Itoa(x.weight), q(x.cookie)}, "~")
+	}
+	return strings.Join(s, ",")
+}
+
+// scripted admin socket; when `table` is set it also plays HAProxy: every `set server` that reaches it (no socket
+// error) is applied to the table, whatever the scripted answer says
 type c02sock struct {
 	script []string
 	calls  [][]string
+	table  []*c02srv
+}
+
+func (s *c02sock) apply(cmd string) {
+	f := strings.Fields(cmd)
+	if len(f) < 5 || f[0] != "set" || f[1] != "server" {
+		return
+	}
+	sl := strings.SplitN(f[2], "/", 2)
+	if len(sl) != 2 {
+		return
+	}
+	for _, srv := range s.table {
+		if srv.name != sl[1] {
+			continue
+		}
+		switch f[3] {
+		case "addr":
+			srv.ip = f[4]
+			if len(f) >= 7 && f[5] == "port" {
+				srv.port, _ = strconv.Atoi(f[6])
+			}
+		case "state":
+			srv.state = f[4]
+		case "weight":
+			srv.weight, _ = strconv.Atoi(f[4])
+		}
+	}
 }
 
 func (s *c02sock) Address() string { return "" }
@@ -168,11 +243,14 @@ func (s *c02sock) Send(observer func(time.Duration), cmd ...string) ([]string, e
 	s.calls = append(s.calls, cmd)
 	k := len(s.calls) - 1
 	out := make([]string, len(cmd))
+	if k < len(s.script) && s.script[k] == "E" {
+		return nil, fmt.Errorf("socket error")
+	}
+	for _, c := range cmd {
+		s.apply(c)
+	}
 	if k < len(s.script) {
 		sc := s.script[k]
-		if sc == "E" {
-			return nil, fmt.Errorf("socket error")
-		}
 		for i := range out {
 			if i < len(sc) {
 				out[i] = c02resp[sc[i]]
@@ -268,7 +346,8 @@ func c02case(c *ctx, prop string, f c02flags, old, cur []c02ep, script []string)
 		if !f.same {
 			b2.Server.MaxConn = 7
 		}
-		sock := &c02sock{script: script}
+		// b is the committed backend: what the running HAProxy loaded at its last reload
+		sock := &c02sock{script: script, table: c02load(b)}
 		updated, _ := haproxy.VerifDynUpdate(inst, sock)
 		cmds := make([]string, len(sock.calls))
 		for i, cl := range sock.calls {
@@ -278,13 +357,47 @@ func c02case(c *ctx, prop string, f c02flags, old, cur []c02ep, script []string)
 		if len(cmds) > 0 {
 			cs = strings.Join(cmds, ",")
 		}
-		return b2s(updated) + " " + cs + " " + c02fmtEPs(c02read(b2))
+		c02cookieStats(c, f, updated, sock.table, b2)
+		return b2s(updated) + " " + cs + " " + c02fmtEPs(c02read(b2)) + " " + c02fmtTable(sock.table)
 	}()
 	sc := "-"
 	if len(script) > 0 {
 		sc = strings.Join(script, ",")
 	}
 	c.emit(prop, "pair "+f.String()+" "+c02fmtEPs(old)+" "+c02fmtEPs(cur)+" "+sc, out)
+}
+
+// c02cookieStats: how often the generated cases reach the cookie clause, and the two drifts that are outside it
+func c02cookieStats(c *ctx, f c02flags, updated bool, run []*c02srv, written *hatypes.Backend) {
+	if !updated || !f.aff || !f.dyn || f.res {
+		return
+	}
+	byName := map[string]*hatypes.Endpoint{}
+	for _, ep := range written.Endpoints {
+		byName[ep.Name] = ep
+	}
+	live, slot := false, false
+	for _, srv := range run {
+		ep := byName[srv.name]
+		if ep == nil || srv.cookie == ep.CookieValue {
+			continue
+		}
+		if srv.state == "maint" {
+			slot = true
+		} else {
+			live = true
+		}
+	}
+	c.stat("pair_dyn_update_with_cookies_pres"+b2s(f.pres), 1)
+	if live {
+		// pres=0: by design (AddEmptyEndpoint comment), outside "preserved cookie values"; pres=1: the oracle clause
+		c.stat("pair_live_cookie_differs_pres"+b2s(f.pres), 1)
+	}
+	if slot {
+		// free slot whose written cookie is not the one HAProxy holds (pres=1: clause free-slot-cookie-differs-from-disk,
+		// the defect repaired by 91faf0b; pres=0: outside the statement)
+		c.stat("pair_free_slot_cookie_differs_pres"+b2s(f.pres), 1)
+	}
 }
 
 // c02layout builds an endpoint list through the real API (realistic names), then tweaks fields
@@ -524,6 +637,11 @@ func c02hist(c *ctx, faults string, ops []string) {
 				}
 				st += ":diff:" + sanitize(d)
 			}
+			// cookie column: the cookie every running server was loaded with next to the cookie on its server line
+			ck, err := c02cookieStep(p)
+			if err != nil {
+				return "skip:" + sanitize(err.Error())
+			}
 			// certificates held in memory vs files
 			for f, content := range p.Sim.Certs {
 				// the controller sends the file without blank lines (runtime API restriction): compare modulo blank lines
@@ -537,12 +655,74 @@ func c02hist(c *ctx, faults string, ops []string) {
 					}
 				}
 			}
-			steps = append(steps, st)
+			if ck != "" {
+				c.stat("hist_steps_with_cookie_backends_"+st[:strings.IndexAny(st+":", ":")], 1)
+			}
+			steps = append(steps, st+ck)
 		}
 		c.stat(fmt.Sprintf("hist_cmds_%v", len(p.Sim.Cmds) > 0), 1)
 		return strings.Join(steps, ",")
 	}()
 	c.emit("C02", "hist "+faults+" "+strings.Join(ops, " "), out)
+}
+
+// c02cookieStep renders, for every backend whose server lines carry `cookie <value>`, the cookie each server of the
+// simulated HAProxy holds (loaded at its last reload; `set server` cannot change it) next to the cookie of the server
+// line just written: `;K<backend>!<preserve 0|1>!<server>~<running state>~<running cookie>~<disk cookie>+...`
+// (`_` = no cookie, `?` = no such server on that side). Backends that render no cookie are left out.
+func c02cookieStep(p *world.Pipeline) (string, error) {
+	cfg, err := world.LoadConfig(p.CfgDir)
+	if err != nil {
+		return "", err
+	}
+	p.Sim.RunningTable() // lock round trip: the table is read after the simulated HAProxy is done
+	var out strings.Builder
+	for _, be := range world.SortedKeys(cfg.Backends) {
+		sec := cfg.Backends[be]
+		pres := false
+		type row struct{ st, run, disk string }
+		rows := map[string]*row{}
+		rendered := false
+		for _, l := range sec.Lines {
+			if len(l) >= 2 && l[0] == "cookie" {
+				for _, t := range l[2:] {
+					if t == "preserve" {
+						pres = true
+					}
+				}
+			}
+			if len(l) >= 3 && l[0] == "server" {
+				rw := &row{st: "?", run: "?", disk: ""}
+				for j := 3; j+1 < len(l); j++ {
+					if l[j] == "cookie" {
+						rw.disk = l[j+1]
+						rendered = true
+					}
+				}
+				rows[l[1]] = rw
+			}
+		}
+		for _, srv := range p.Sim.Table[be] {
+			rw := rows[srv.Name]
+			if rw == nil {
+				rw = &row{disk: "?"}
+				rows[srv.Name] = rw
+			}
+			rw.st, rw.run = srv.State, srv.Cookie
+			if srv.Cookie != "" {
+				rendered = true
+			}
+		}
+		if !rendered {
+			continue
+		}
+		var parts []string
+		for _, n := range world.SortedKeys(rows) {
+			parts = append(parts, n+"~"+rows[n].st+"~"+q(rows[n].run)+"~"+q(rows[n].disk))
+		}
+		out.WriteString(";K" + be + "!" + b2s(pres) + "!" + strings.Join(parts, "+"))
+	}
+	return out.String(), nil
 }
 
 func c02histGen(c *ctx, r *gen.Rng, n int) {
@@ -591,6 +771,234 @@ func c02histGen(c *ctx, r *gen.Rng, n int) {
 	}
 }
 
+// ---- cookie column: generators -------------------------------------------------------------------------------
+//
+// Cookie values as the converter gives them (syncBackendEndpointCookies runs BEFORE the dynamic update renames the
+// endpoints): strategy server-name -> the name the endpoint has in the freshly built backend (srv001… in order),
+// strategy pod-uid -> the uid of the pod; no cookie affinity -> CookieValue stays "". Free slots always carry the
+// placeholder AddEmptyEndpoint gives them (their generated name), or whatever an earlier update left there.
+
+func c02ckValue(aff bool, strat, convName, pod string) string {
+	if !aff {
+		return ""
+	}
+	if strat == "uid" {
+		return "uid-" + pod
+	}
+	return convName
+}
+
+// c02cookieExhaustive: small scope over (preserve, affinity, strategy, #servers, #free slots, #added = fits/overflows,
+// cookie of the free slots = placeholder / stale / equal to the added endpoint's, one server replaced or not)
+func c02cookieExhaustive(c *ctx) {
+	for _, pres := range []bool{false, true} {
+		for _, aff := range []bool{false, true} {
+			for _, strat := range []string{"name", "uid"} {
+				for k := 0; k <= 2; k++ {
+					for m := 0; m <= 2; m++ {
+						for a := 0; a <= m+1; a++ {
+							for _, slotck := range []string{"placeholder", "stale", "eqnew"} {
+								for repl := 0; repl <= 1 && repl <= k; repl++ {
+									f := c02flags{dyn: true, same: true, block: 1, iw: 1, pres: pres, aff: aff, strat: strat}
+									var old, cur []c02ep
+									for i := 1; i <= k; i++ {
+										n := fmt.Sprintf("srv%03d", i)
+										pod := fmt.Sprintf("app-%d", i)
+										old = append(old, c02ep{n, fmt.Sprintf("10.0.0.%d", i), 8080, true, 1, c02ckValue(aff, strat, n, pod), "", "d/" + pod, 0})
+									}
+									// current list, converter names in order
+									add := func(ip, pod string) {
+										n := fmt.Sprintf("srv%03d", len(cur)+1)
+										cur = append(cur, c02ep{n, ip, 8080, true, 1, c02ckValue(aff, strat, n, pod), "", "d/" + pod, 0})
+									}
+									for i := 1; i <= k; i++ {
+										if i == 1 && repl == 1 {
+											add("10.0.1.1", "new-1")
+										} else {
+											add(fmt.Sprintf("10.0.0.%d", i), fmt.Sprintf("app-%d", i))
+										}
+									}
+									first := len(cur)
+									for j := 1; j <= a; j++ {
+										add(fmt.Sprintf("10.0.2.%d", j), fmt.Sprintf("add-%d", j))
+									}
+									for j := 1; j <= m; j++ {
+										n := fmt.Sprintf("srv%03d", k+j)
+										ck := n
+										switch slotck {
+										case "stale":
+											ck = fmt.Sprintf("uid-gone-%d", j)
+										case "eqnew":
+											if first+j-1 < len(cur) {
+												ck = cur[first+j-1].cookie
+											}
+										}
+										old = append(old, c02ep{n, "127.0.0.1", 1023, false, 1, ck, "", "", 0})
+									}
+									fits := "fits"
+									if a > m {
+										fits = "overflows"
+									}
+									c.stat("cookie_exh_"+fits, 1)
+									c02case(c, "C02", f, old, cur, nil)
+								}
+							}
+						}
+					}
+				}
+			}
+		}
+	}
+}
+
+// c02cookieRandom: random slot layouts (all naming modes) with cookie values by strategy, stale slot cookies left by
+// earlier updates, preserve on/off, response scripts
+func c02cookieRandom(c *ctx, r *gen.Rng, n int) {
+	pool := []string{"10.0.0.1:8080", "10.0.0.2:8080", "10.0.0.3:8080", "10.0.0.4:8080", "10.0.0.1:9090", "10.0.0.5:8080", "10.0.0.6:8080"}
+	podOf := func(e c02ep) string { return strings.TrimPrefix(e.tref, "d/") + "-" + strconv.Itoa(e.port) }
+	for i := 0; i < n; i++ {
+		f := c02flags{dyn: true, same: !r.Chance(1, 20), aff: !r.Chance(1, 5), pres: r.Bool(), minfree: r.Range(0, 3), block: r.Range(0, 4), iw: 1,
+			strat: gen.Pick(r, []string{"name", "uid"})}
+		naming := r.Intn(3)
+		old := c02layout(r, f, naming, r.Range(1, 7), pool, false, false)
+		for j := range old {
+			e := &old[j]
+			e.label = ""
+			switch {
+			case !e.enabled && r.Chance(1, 3):
+				// slot released by an earlier update / placeholder of another position
+				e.cookie = gen.Pick(r, []string{"uid-gone", "srv001", "srv002", "srv003"})
+			case !e.enabled:
+				e.cookie = e.name
+			case f.strat == "name" && r.Chance(1, 4):
+				e.cookie = c02ckValue(f.aff, "name", gen.Pick(r, []string{"srv001", "srv002", "srv003"}), "")
+			default:
+				e.cookie = c02ckValue(f.aff, f.strat, e.name, podOf(*e))
+			}
+		}
+		cur := c02layout(r, f, naming, r.Range(0, len(old)), pool, false, true)
+		for j := range cur {
+			e := &cur[j]
+			e.label = ""
+			e.cookie = c02ckValue(f.aff, f.strat, e.name, podOf(*e))
+		}
+		c.stat("cookie_rnd_pres"+b2s(f.pres)+"_"+f.strat, 1)
+		c02case(c, "C02", f, old, cur, c02script(r, len(old)+2))
+	}
+}
+
+// c02cookieHistory: one service behind an ingress with cookie affinity; `sets` = the pods behind the service after
+// each reconcile (indexes into app-1…). The real converter computes the cookie values (server-name / pod-uid).
+func c02cookieHistory(pres bool, strat string, minfree int, sets [][]int) []string {
+	ann := "affinity=cookie;session-cookie-dynamic=false;session-cookie-name=srv"
+	if pres {
+		ann += ";session-cookie-preserve=true"
+	}
+	if strat == "uid" {
+		ann += ";session-cookie-value-strategy=pod-uid"
+	}
+	ops := []string{"cm~slots-min-free=" + strconv.Itoa(minfree), "svc+d/app!http:80:8080!-"}
+	for i := 1; i <= 6; i++ {
+		ops = append(ops, fmt.Sprintf("pod+d/app-%d!10.0.1.%d!-!-", i, i))
+	}
+	epOp := func(set []int) string {
+		if len(set) == 0 {
+			return "ep~d/app!-"
+		}
+		var parts []string
+		for _, i := range set {
+			parts = append(parts, fmt.Sprintf("10.0.1.%d:r:app-%d", i, i))
+		}
+		return "ep~d/app!" + strings.Join(parts, "+")
+	}
+	for k, set := range sets {
+		ops = append(ops, epOp(set))
+		if k == 0 {
+			ops = append(ops, "ing+d/i1@1!haproxy,-!"+ann+"!a.local>/:Prefix:app:80!-!-")
+		}
+		if k < len(sets)-1 {
+			ops = append(ops, "sync")
+		}
+	}
+	return ops
+}
+
+// c02podStep: the next pod set: add the next unused pod, drop the first / the last, replace the first
+func c02podStep(set []int, kind int, next *int) []int {
+	res := append([]int(nil), set...)
+	switch kind {
+	case 0:
+		res = append(res, *next)
+		*next++
+	case 1:
+		if len(res) > 0 {
+			res = res[1:]
+		}
+	case 2:
+		if len(res) > 0 {
+			res = res[:len(res)-1]
+		}
+	case 3:
+		if len(res) > 0 {
+			res[0] = *next
+			*next++
+		}
+	case 4: // reverse the order the endpoints are listed in
+		for i, j := 0, len(res)-1; i < j; i, j = i+1, j-1 {
+			res[i], res[j] = res[j], res[i]
+		}
+	}
+	return res
+}
+
+// c02cookieHistExhaustive: (preserve, strategy, slots-min-free) x (1 or 2 pods at start) x every sequence of two
+// changes out of {scale up, drop first, drop last, replace first}
+func c02cookieHistExhaustive(c *ctx) {
+	for _, pres := range []bool{true, false} {
+		for _, strat := range []string{"name", "uid"} {
+			for _, mf := range []int{1, 2} {
+				for n0 := 1; n0 <= 2; n0++ {
+					for k1 := 0; k1 < 4; k1++ {
+						for k2 := 0; k2 < 4; k2++ {
+							next := n0 + 1
+							s0 := []int{1, 2}[:n0]
+							s1 := c02podStep(s0, k1, &next)
+							s2 := c02podStep(s1, k2, &next)
+							c.stat("cookie_hist_exh", 1)
+							c02hist(c, "-", c02cookieHistory(pres, strat, mf, [][]int{s0, s1, s2}))
+						}
+					}
+				}
+			}
+		}
+	}
+}
+
+func c02cookieHistRandom(c *ctx, r *gen.Rng, n int) {
+	for i := 0; i < n; i++ {
+		next := 3
+		set := []int{1, 2}[:r.Range(1, 2)]
+		if len(set) == 1 {
+			next = 2
+		}
+		sets := [][]int{set}
+		for k := r.Range(3, 6); k > 0; k-- {
+			kind := r.Intn(5)
+			if next > 6 && (kind == 0 || kind == 3) {
+				kind = 1
+			}
+			set = c02podStep(set, kind, &next)
+			sets = append(sets, set)
+		}
+		faults := "-"
+		if r.Chance(1, 4) {
+			faults = gen.Pick(r, []string{"b", "e"}) + strconv.Itoa(r.Intn(6))
+		}
+		c.stat("cookie_hist_rnd", 1)
+		c02hist(c, faults, c02cookieHistory(r.Chance(2, 3), gen.Pick(r, []string{"name", "uid"}), r.Range(1, 3), sets))
+	}
+}
+
 func runC02(c *ctx) {
 	f := c02flags{dyn: true, same: true, block: 1, iw: 1}
 	ep := func(name, ip string, en bool, w int) c02ep {
@@ -619,6 +1027,28 @@ func runC02(c *ctx) {
 		"svc+d/web!http:80:8080!- ep~d/web!10.0.3.1:r:web-1 svc+e/app!http:80:8080!- ep~e/app!10.1.1.1:r:app-1 "+
 		"ing+d/i1@1!haproxy,-!-!a.local>/a:Prefix:app:80+/b:Prefix:api:80+/c:Prefix:web:80!-!- ing+e/i2@2!haproxy,-!-!b.local>/:Prefix:app:80!-!- sync "+
 		"ep~d/app!10.0.1.2:r:app-2 sync ep~d/api!10.0.2.2:r:api-2 sync ep~d/web!10.0.3.2:r:web-2 sync ep~e/app!10.1.1.2:r:app-2 sync"))
+	// seed C02e (preserve guard of the loop that fills empty slots gone): one pod + one free slot, pod-uid cookies,
+	// session-cookie-preserve, a second pod: must reload; applied dynamically srv002 keeps the cookie `srv002` it was
+	// loaded with while the written server line says `cookie uid-app-2`
+	c02case(c, "C02", c02flags{dyn: true, same: true, block: 1, iw: 1, pres: true, aff: true, strat: "uid"},
+		[]c02ep{{"srv001", "10.0.0.1", 8080, true, 1, "uid-app-1", "", "d/app-1", 0}, {"srv002", "127.0.0.1", 1023, false, 1, "srv002", "", "", 0}},
+		[]c02ep{{"srv001", "10.0.0.1", 8080, true, 1, "uid-app-1", "", "d/app-1", 0}, {"srv002", "10.0.0.2", 8080, true, 1, "uid-app-2", "", "d/app-2", 0}}, nil)
+	// the same end to end (real converter, template, simulated HAProxy)
+	c02hist(c, "-", c02cookieHistory(true, "uid", 1, [][]int{{1}, {1, 2}}))
+	// 91faf0b (Props/C02Cookie.lean free_slot_cookie_drift): the free slots carried over by a dynamic update got a new
+	// placeholder cookie. preserve + server-name, one pod and one free slot; the pod goes away (srv001 disabled; the two
+	// free slots were written with exchanged cookies: `srv002 … cookie srv001`), another pod arrives: its cookie
+	// `srv001` equalled the in-memory cookie of slot srv002, which HAProxy loaded as `srv002`: enabled without reload
+	c02hist(c, "-", c02cookieHistory(true, "name", 1, [][]int{{1}, {}, {2}}))
+	// the same with two pods (the Lean witness)
+	c02hist(c, "-", c02cookieHistory(true, "name", 1, [][]int{{1, 2}, {1}, {1, 3}}))
+	// and as a pair: scale-down with a free slot in front of the released one: the written free slots must keep the
+	// cookies HAProxy holds (clause free-slot-cookie-differs-from-disk)
+	c02case(c, "C02", c02flags{dyn: true, same: true, block: 1, iw: 1, pres: true, aff: true, strat: "name"},
+		[]c02ep{{"srv001", "10.0.0.1", 8080, true, 1, "srv001", "", "d/app-1", 0}, {"srv002", "10.0.0.2", 8080, true, 1, "srv002", "", "d/app-2", 0}, {"srv003", "127.0.0.1", 1023, false, 1, "srv003", "", "", 0}},
+		[]c02ep{{"srv001", "10.0.0.1", 8080, true, 1, "srv001", "", "d/app-1", 0}}, nil)
+	c02cookieExhaustive(c)
+	c02cookieHistExhaustive(c)
 	r := gen.New(c.seed)
 	n := 6000
 	if c.thorough() {
@@ -635,4 +1065,15 @@ func runC02(c *ctx) {
 		nh = 3000
 	}
 	c02histGen(c, r.Fork(), nh)
+	// cookie column: own forks, after the existing generators (their cases stay what they were)
+	nc := 2000
+	if c.thorough() {
+		nc = 60000
+	}
+	c02cookieRandom(c, r.Fork(), nc)
+	nch := 40
+	if c.thorough() {
+		nch = 1500
+	}
+	c02cookieHistRandom(c, r.Fork(), nch)
 }
